@@ -233,7 +233,7 @@ def enumerated(tier, seed):
     yield from odd_list_cases()
     # the sizes of PC-relative statements decide every later address: re-use C03's distance families
     from checks import c03
-    for i, case in enumerate(c03.enumerated("quick", seed)):
+    for i, case in enumerate(c for c in c03.enumerated("quick", seed) if not c.get("numpcr")):
         if case.get("macro"):
             continue
         if any(it["t"] == "pcr" for it in case["items"]) and not any(it["t"] == "rmb" and it["n"] > 2000 for it in case["items"]):
